@@ -772,6 +772,11 @@ if __name__ == '__main__':
             'reconstruction order) tied by bit-exact correspondence on the explored inputs only',
             'theorems are over ordered fields (real-number semantics), the complex-ℓ1 ones over ordered fields '
             'with a lawful sqrt (ℝ instance constructed); IEEE rounding not modelled',
+            'infinite bounds: the field has no ±inf; the theorems are stated for extended (Option) bounds and '
+            'bridged to the generated finite-bound kernels by "every sufficiently far finite stand-in computes '
+            'the same" (clamp_far, *_inf); that IEEE ±inf on finite data acts as the absent max / min / '
+            'comparison is not a Lean theorem (Float is opaque) — it is what the bit-exact correspondence run '
+            'exercises for every bound-taking op kind (coverage.infinite_bound_ops_per_kind, enforced non-zero)',
             'Eigen::BDCSVD is an oracle: the model takes σ, U, V as logged from the real run; that U·diag(s)·Vᵀ '
             'is the matrix prox (SVD contract + von Neumann trace inequality) is NOT proved '
             '(nuclear_prox_partial) — the monitor checks it against an independent pure-Python one-sided '
